@@ -45,7 +45,7 @@ import ast
 import re
 
 from harness import translate
-from harness.translate import Untranslatable
+from harness.translate import Untranslatable, lname
 
 
 BC = '1#'          # a broadcast axis (inserted by None / np.newaxis)
@@ -110,7 +110,12 @@ class FnShaped(translate.Fn):
         self.obj_derived = dict(sp.get('obj_derived', {}))  # statement text `x = …` -> (x, object variable it is derived from)
         self.obj_assign = set(sp.get('obj_assign', ()))   # names assigned an object list declared in objlists
         self.ignore_stmts = set(sp.get('ignore_stmts', ()))   # exact statement texts that only bind helper objects
+        self.static = dict(sp.get('static', {}))          # attribute text -> bool it is ASSUMED to hold (documented in the tie)
+        self.optional_vars = set(sp.get('optional_vars', ()))   # array variables that start as None
+        self.call_list_externals = dict(sp.get('call_list_externals', {}))   # callee text -> dict(lean, kinds[], elem[])
+        self.tuple_lists = {}            # python variable (a list of tuples from such an external) -> kinds of the tuple
         self.obj_alias = {}              # python variable -> the loop object it stands for
+        self.optext = {}                 # python variable holding an optional external -> Lean text of "is not None"
         self.local_attrs = set(sp.get('local_attrs', ()))   # attributes (declared in attrs) assigned here before use
         self.uses_iota = False
         self.fresh = 0
@@ -251,6 +256,18 @@ class FnShaped(translate.Fn):
                 return None
             return self.av_map2(node, node.left, node.comparators[0], a, b, env,
                                 lambda x, y, op=type(node.ops[0]): self.cmp_text(node, op, x, y), dtype='b')
+        if isinstance(node, ast.ListComp) and len(node.generators) == 1:
+            g = node.generators[0]
+            if isinstance(g.iter, ast.Name) and g.iter.id in self.tuple_lists and not g.ifs and not g.is_async \
+                    and env.get(g.iter.id) == 'arrlist':
+                kinds = self.tuple_lists[g.iter.id]
+                tg = list(g.target.elts) if isinstance(g.target, ast.Tuple) else [g.target]
+                if len(tg) == len(kinds) and all(isinstance(t, ast.Name) for t in tg) and isinstance(node.elt, ast.Name):
+                    real = [t.id for t, k in zip(tg, kinds) if k != 'skip']
+                    if real == [node.elt.id]:
+                        # `[x for …, x, … in xs]`: the list of the one modelled component of each tuple
+                        return LV(self.var(g.iter.id), base=g.iter.id)
+            self.fail(node, 'unsupported list comprehension')
         if isinstance(node, ast.Call):
             return self.av_call(node, env)
         return None
@@ -324,6 +341,27 @@ class FnShaped(translate.Fn):
             nm = self.list_externals[text]
             self.add_param(nm, 'List (Nat → α)')
             return LV(nm)
+        if ast.unparse(node.func) in self.call_list_externals and not node.keywords:
+            d = self.call_list_externals[ast.unparse(node.func)]
+            if len(node.args) != len(d['kinds']):
+                self.fail(node, 'external called with another number of arguments than declared')
+            args, tys = [], []
+            for a, k in zip(node.args, d['kinds']):
+                if k == 'skip':
+                    continue
+                tys.append(self.lean_ty(k) if k in ('s', 'nat') else '(' + self.lean_ty(k) + ')')
+                args.append(self.nat(a, env) if k == 'nat' else self.arr_arg(a, k, env) if k in ('arr', 'arr2')
+                            else self.expr(a, env))
+            self.add_param(d['lean'], ' → '.join(tys + ['List (Nat → α)']))
+            v = LV('(%s %s)' % (d['lean'], ' '.join(args)))
+            v.tuple_kinds = list(d['elem'])
+            return v
+        if text in self.obj_externals:
+            d = self.obj_externals[text]
+            if d['kind'] in ('arr', 'arr2'):
+                head = self.obj_ext_head(node, d, env)
+                return AV([self.dim_text(x) for x in d['shape']],
+                          lambda ix, head=head: '(%s %s)' % (head, ' '.join(ix)))
         if text in self.shaped_externals:
             nm, k, shp = self.shaped_externals[text]
             self.add_param(nm, self.lean_ty(k))
@@ -393,6 +431,22 @@ class FnShaped(translate.Fn):
             return self.var_av(txt, tgt['returns'], None, None)
         return None
 
+    def obj_ext_head(self, node, d, env):
+        """`<lean> obj… scalar…` for a declared external that depends on loop objects (and scalar arguments)"""
+        objs = []
+        for o in d.get('of', ()):
+            if env.get(o) == 'obj':
+                objs.append(self.var(o))
+            elif env.get(o) == 'objalias' and o in self.obj_alias:
+                objs.append(self.var(self.obj_alias[o]))
+            else:
+                self.fail(node, '%s is not a loop object here' % o)
+        scal = [self.expr(ast.parse(a, mode='eval').body, env) for a in d.get('args', ())]
+        res = {'arr': 'Nat → α', 'arr2': 'Nat → Nat → α', 's': 'α', 'bool': 'Bool'}[d['kind']]
+        self.add_param(d['lean'], ' → '.join(['ι'] * len(objs) + ['α'] * len(scal) + [res]))
+        self.uses_iota = True
+        return ' '.join([d['lean']] + objs + scal)
+
     def known_call(self, node, tgt, env):
         """text of a call of a function translated earlier in the same file"""
         if node.keywords:
@@ -409,6 +463,18 @@ class FnShaped(translate.Fn):
                 args.append(self.arr_arg(a, k, env))
             else:
                 args.append(self.expr(a, env))
+        seen = set()
+        for arr, n in tgt.get('len_params', ()):
+            if n in seen:
+                continue
+            seen.add(n)
+            # the callee's declared length of one of its array arguments: the length of what is passed
+            if arr not in tgt['arg_names']:
+                self.fail(node, 'the callee declares the length of something that is not an argument')
+            v = self.aval(node.args[tgt['arg_names'].index(arr)], env)
+            if not isinstance(v, AV) or v.shape[0] in (None, BC):
+                self.fail(node, 'argument of undeclared length passed to a function that needs its length')
+            args.append(v.shape[0])
         for nm, ty in tgt['extra_params']:
             self.add_param(nm, ty)
             if 'ι' in ty:
@@ -654,6 +720,21 @@ class FnShaped(translate.Fn):
         r = self.minmax_test(node, env)
         if r is not None:
             return r
+        if isinstance(node, ast.Compare) and len(node.ops) == 1 and isinstance(node.ops[0], (ast.Is, ast.IsNot)) \
+                and isinstance(node.comparators[0], ast.Constant) and node.comparators[0].value is None \
+                and isinstance(node.left, ast.Name) and node.left.id in self.optext:
+            # `x is None` for x = a declared OPTIONAL external: decided by its companion predicate `<lean>Defined`
+            c = self.optext[node.left.id]
+            return '(!%s)' % c if isinstance(node.ops[0], ast.Is) else c
+        if isinstance(node, ast.Compare) and len(node.ops) == 1 and isinstance(node.ops[0], (ast.Eq, ast.NotEq)):
+            l, r2 = node.left, node.comparators[0]
+            strs = [x for x in (l, r2) if isinstance(x, ast.Constant) and (x.value is None or isinstance(x.value, (str, bool)))]
+            if not strs and ast.unparse(l) not in self.enums and not (self.is_nat(l, env) and self.is_nat(r2, env)) \
+                    and self.aval(l, env) is None and self.aval(r2, env) is None:
+                # IEEE `a == b` on floats: true exactly when a ≤ b and b ≤ a (false for NaN, true for +0 == -0)
+                a, b = self.expr(l, env), self.expr(r2, env)
+                c = '(decide (%s ≤ %s) && decide (%s ≤ %s))' % (a, b, b, a)
+                return c if isinstance(node.ops[0], ast.Eq) else '(!%s)' % c
         if isinstance(node, ast.Attribute):
             t = ast.unparse(node)
             if t in self.attrs and self.attrs[t][1] == 'bool':
@@ -696,7 +777,11 @@ class FnShaped(translate.Fn):
         """`name = <array value>`"""
         # re-binding the name ends its life as a view; views OF the old value stay views of that (now unnamed) value
         self.views.pop(name, None)
+        self.optext.pop(name, None)
+        self.tuple_lists.pop(name, None)
         if isinstance(v, LV):
+            if getattr(v, 'tuple_kinds', None):
+                self.tuple_lists[name] = v.tuple_kinds
             env[name] = v.kind
             if v.base is not None and v.base != name:
                 self.views[name] = v.base
@@ -736,7 +821,30 @@ class FnShaped(translate.Fn):
                 e = self.expr(s.value, env)
                 env[key] = 's'
                 return '%slet %s := %s\n' % (ind, nm, e), False
+            if k == 'optarr2' and isinstance(s.value, ast.Name) and env.get(s.value.id) == 'optarr2':
+                env[key] = 'optarr2'
+                return '%slet %s : %s := %s\n' % (ind, nm, self.lean_ty(k), self.var(s.value.id)), False
             self.fail(s, 'unsupported kind of local attribute')
+        # ---- if <statically decided test>: only the branch taken is translated
+        if isinstance(s, ast.If):
+            sv = self.static_value(s.test)
+            if sv is not None:
+                taken = s.body if sv else s.orelse
+                if self.ends_in_return(taken) or self.has_break(taken):
+                    self.fail(s, 'return / break under a static test')
+                return self.block(taken, env, ind, None, inline=True), False
+        # ---- x = None for a declared optional array
+        if isinstance(s, ast.Assign) and len(s.targets) == 1 and isinstance(s.targets[0], ast.Name) \
+                and s.targets[0].id in self.optional_vars and isinstance(s.value, ast.Constant) and s.value.value is None:
+            env[s.targets[0].id] = 'optarr2'
+            self.shapes.pop(s.targets[0].id, None)
+            return '%slet %s : %s := none\n' % (ind, self.var(s.targets[0].id), self.lean_ty('optarr2')), False
+        # ---- if x is None: … [else: …]  for an optional array x: afterwards x is an array
+        if isinstance(s, ast.If) and isinstance(s.test, ast.Compare) and len(s.test.ops) == 1 \
+                and isinstance(s.test.ops[0], ast.Is) and isinstance(s.test.left, ast.Name) \
+                and env.get(s.test.left.id) == 'optarr2' and isinstance(s.test.comparators[0], ast.Constant) \
+                and s.test.comparators[0].value is None:
+            return self.if_none(s, env, ind), False
         # ---- x = sorted([a, b]): python's stable sort of two scalars (swapped exactly when b < a)
         if isinstance(s, ast.Assign) and len(s.targets) == 1 and isinstance(s.targets[0], ast.Name) \
                 and isinstance(s.value, ast.Call) and ast.unparse(s.value.func) == 'sorted' and len(s.value.args) == 1 \
@@ -778,6 +886,15 @@ class FnShaped(translate.Fn):
             nm, e = self.var(s.targets[0].id), self.nat(s.value, env)
             env[s.targets[0].id] = 'nat'
             return '%slet %s := %s\n' % (ind, nm, e), False
+        # ---- x = <declared optional external>: the array, plus the predicate "is not None"
+        if one_name and ast.unparse(s.value) in self.obj_externals and self.obj_externals[ast.unparse(s.value)].get('optional'):
+            d = self.obj_externals[ast.unparse(s.value)]
+            dd = dict(d, lean=d['lean'] + 'Defined', kind='bool')
+            defined = '(' + self.obj_ext_head(s.value, dd, env) + ')'
+            v = self.aval(s.value, env)
+            txt = self.bind_array(s.targets[0].id, v, env, ind, s)
+            self.optext[s.targets[0].id] = defined
+            return txt, False
         # ---- x = <array / list expression>
         if one_name:
             v = self.aval(s.value, env)
@@ -863,10 +980,27 @@ class FnShaped(translate.Fn):
                                                                     ctx=ast.Load())), s) for t, a in zip(tg, arrs)]
             return self.block(stm, env, ind, None, inline=True), False
         # ---- variables first assigned in both branches of an if
-        if isinstance(s, ast.If) and s.orelse and not self.ends_in_return(s.body) and not self.has_break([s]):
+        if isinstance(s, ast.If) and not self.ends_in_return(s.body) and not self.has_break([s]) \
+                and not any(isinstance(n, ast.Continue) for n in ast.walk(s)):
             names = self.assigned([s], env)
-            if any(n not in env for n in names):
-                return self.if_new_vars(s, names, env, ind), False
+            new = [n for n in names if n not in env]
+            if new:
+                both = s.orelse and all(n in self.assigned(s.body, env) and n in self.assigned(s.orelse, env) for n in new)
+                if both:
+                    return self.if_new_vars(s, names, env, ind), False
+                # variables first assigned inside one branch are local to it (a later use is an unknown name)
+                carried = [n for n in names if n in env]
+                if not carried:
+                    self.fail(s, 'a conditional that changes no existing variable')
+                pack = self.state_pack(carried)
+                c = self.cond(s.test, env)
+                self._branch_ctx[id(s.body)] = '%s = true →\n' % c
+                body = self.block(s.body, env, ind + '    ', pack)
+                if s.orelse:
+                    self._branch_ctx[id(s.orelse)] = '%s = false →\n' % c
+                other = self.block(s.orelse, env, ind + '    ', pack)
+                src = '(if %s then\n%s%s  else\n%s%s  )' % (c, body, ind, other, ind)
+                return self.unpack(carried, src, ind), False
         # ---- yield
         if isinstance(s, ast.Expr) and isinstance(s.value, ast.Yield):
             return self.np_yield(s, env, ind, rest, inline)
@@ -906,11 +1040,75 @@ class FnShaped(translate.Fn):
             return v.plain if v.plain else self.lam(v)
         if kind == 'nat':
             return self.nat(node, env)
+        if kind == 'optarr2':
+            if isinstance(node, ast.Name) and env.get(node.id) == 'optarr2':
+                return self.var(node.id)
+            self.fail(node, 'an optional array was declared as the result')
         return self.expr(node, env)
 
     @staticmethod
     def has_break(stmts):
         return any(isinstance(n, ast.Break) for st in stmts for n in ast.walk(st))
+
+    def static_value(self, test):
+        """True / False when the test is decided by the spec's `static` assumptions, else None"""
+        if ast.unparse(test) in self.static:
+            return bool(self.static[ast.unparse(test)])
+        if isinstance(test, ast.UnaryOp) and isinstance(test.op, ast.Not):
+            v = self.static_value(test.operand)
+            return None if v is None else not v
+        if isinstance(test, ast.BoolOp):
+            vs = [self.static_value(v) for v in test.values]
+            if isinstance(test.op, ast.And):
+                # python evaluates left to right: a False decides it only if everything before it is static
+                for v in vs:
+                    if v is None:
+                        return None
+                    if v is False:
+                        return False
+                return True
+            for v in vs:
+                if v is None:
+                    return None
+                if v is True:
+                    return True
+            return False
+        return None
+
+    def if_none(self, s, env, ind):
+        """`if x is None: A else: B` on an optional array x (A must assign x an array; in B x is the array)"""
+        x = s.test.left.id
+        if self.ends_in_return(s.body) or self.has_break([s]):
+            self.fail(s, 'unsupported None test')
+        names = [n for n in self.assigned([s], env) if n in env]
+        if x not in names:
+            names = [x] + names
+        e1, e2 = dict(env), dict(env)
+        e2[x] = 'arr2'
+        sh, vw = dict(self.shapes), dict(self.views)
+        nctx = len(self.ctx)
+        self.ctx.append('%s = none →\n' % self.var(x))
+        b1 = self.block(s.body, e1, ind + '      ', None, inline=True)
+        del self.ctx[nctx:]
+        sh1 = self.shapes.get(x)
+        self.shapes, self.views = dict(sh), dict(vw)
+        self.ctx.append('∀ (%s : Nat → Nat → α),\n' % self.var(x))
+        b2 = self.block(s.orelse, e2, ind + '      ', None, inline=True)
+        del self.ctx[nctx:]
+        self.shapes, self.views = sh, vw
+        if e1.get(x) != 'arr2':
+            self.fail(s, 'the None branch must assign the array')
+        for n in names:
+            if e1.get(n) != e2.get(n):
+                self.fail(s, 'variable %s has different kinds in the two branches' % n)
+            env[n] = e1[n]
+        if sh1:
+            self.shapes[x] = sh1
+        pack = self.state_pack(names)
+        ty = self.state_type(names, env)
+        src = '((match %s with\n%s  | none =>\n%s%s      %s\n%s  | some %s =>\n%s%s      %s\n%s  ) : %s)' % (
+            self.var(x), ind, b1, ind, pack, ind, self.var(x), b2, ind, pack, ind, ty)
+        return self.unpack(names, src, ind)
 
     def if_new_vars(self, s, names, env, ind):
         e1, e2 = dict(env), dict(env)
@@ -1071,19 +1269,43 @@ class FnShaped(translate.Fn):
         self.uses_iota = True
         return '%slet %s := (%s %s)\n' % (ind, self.var(mut), m['lean'], ' '.join(args))
 
-    def obj_loop(self, s, env, ind):
-        if s.orelse or not isinstance(s.target, ast.Name):
+    def obj_loop(self, s, env, ind, values=None):
+        """`for c in <declared list of objects>` (element type ι) or `for name, x in <declared list of values>`
+        (`values` = (lean name, [kind per tuple element]), one element an array, the others 'skip')"""
+        if s.orelse:
             self.fail(s, 'unsupported loop')
-        lst = self.objlists[ast.unparse(s.iter)]
-        self.add_param(lst, 'List ι')
-        self.uses_iota = True
-        v = s.target.id
+        env2 = dict(env)
+        if values is None:
+            if not isinstance(s.target, ast.Name):
+                self.fail(s, 'unsupported loop target')
+            lst = self.objlists[ast.unparse(s.iter)]
+            self.add_param(lst, 'List ι')
+            self.uses_iota = True
+            elem_ty = 'ι'
+            v = s.target.id
+            env2[v] = 'obj'
+            self.obj_alias.pop(v, None)
+        else:
+            lst, kinds = values
+            tg = list(s.target.elts) if isinstance(s.target, ast.Tuple) else [s.target]
+            if len(tg) != len(kinds) or not all(isinstance(t, ast.Name) for t in tg):
+                self.fail(s, 'loop target does not match the declared element')
+            real = [(t.id, k) for t, k in zip(tg, kinds) if k != 'skip']
+            if len(real) != 1 or real[0][1] not in ('arr', 'arr2'):
+                self.fail(s, 'exactly one array component is supported')
+            v, k = real[0]
+            elem_ty = '(' + self.lean_ty(k) + ')'
+            self.add_param(lst, 'List ' + elem_ty)
+            env2[v] = k
+            self.shapes.pop(v, None)
+            self.views.pop(v, None)
+            for t, kk in zip(tg, kinds):
+                if kk == 'skip':
+                    env2.pop(t.id, None)
         names = [n for n in self.assigned(s.body, env) if n in env]
         if not names:
             self.fail(s, 'loop without a carried variable')
         brk = self.has_break(s.body)
-        env2 = dict(env)
-        env2[v] = 'obj'
         vs = [self.var(n) for n in names]
         st_ty = self.state_type(names, env)
         if brk:
@@ -1091,7 +1313,12 @@ class FnShaped(translate.Fn):
         in2 = ind + '    '
 
         def pack(flag):
-            return '(' + ', '.join(vs + [flag]) + ')' if brk else self.state_pack(names)
+            # an optional array that has become an array inside the body goes back into the state as `some …`
+            cur_vs = ['(some %s)' % self.var(n) if env.get(n) == 'optarr2' and env2.get(n) == 'arr2' else self.var(n)
+                      for n in names]
+            if brk:
+                return '(' + ', '.join(cur_vs + [flag]) + ')'
+            return cur_vs[0] if len(cur_vs) == 1 else '(' + ', '.join(cur_vs) + ')'
         head = ''
         allv = vs + (['brk__'] if brk else [])
         if len(allv) == 1:
@@ -1105,20 +1332,26 @@ class FnShaped(translate.Fn):
         body = head
         cur = in2
         nctx = len(self.ctx)
-        self.ctx.append('∀ (%s : ι), %s\n' % (self.var(v), self.carried_binders(names, env)))
+        self.ctx.append('∀ (%s : %s), %s\n' % (self.var(v), elem_ty, self.carried_binders(names, env)))
         if brk:
             body += '%sif brk__ then %s else\n' % (cur, pack('brk__'))
         for st in s.body:
-            if isinstance(st, ast.If) and len(st.body) == 1 and isinstance(st.body[0], ast.Break) and not st.orelse:
+            one = isinstance(st, ast.If) and len(st.body) == 1 and not st.orelse
+            if one and isinstance(st.body[0], ast.Break):
                 body += '%sif %s then %s else\n' % (cur, self.cond(st.test, env2), pack('true'))
                 continue
-            if self.has_break([st]):
-                self.fail(st, 'unsupported position of break')
+            if one and isinstance(st.body[0], ast.Continue):
+                # `if c: continue`: the rest of the body is skipped, the state is kept
+                body += '%sif %s then %s else\n' % (cur, self.cond(st.test, env2), pack('brk__'))
+                continue
+            if self.has_break([st]) or any(isinstance(n, ast.Continue) for n in ast.walk(st)):
+                self.fail(st, 'unsupported position of break / continue')
             body += self.block([st], env2, cur, None, inline=True)
         body += '%s%s\n' % (cur, pack('brk__'))
         del self.ctx[nctx:]
-        init = pack('false')
-        src = '(%s).foldl (fun (%s : %s) (%s : ι) =>\n%s%s  ) %s' % (lst, stvar, st_ty, self.var(v), body, ind, init)
+        init = ('(' + ', '.join(vs + ['false']) + ')') if brk else self.state_pack(names)
+        src = '(%s).foldl (fun (%s : %s) (%s : %s) =>\n%s%s  ) %s' % (lst, stvar, st_ty, self.var(v), elem_ty, body, ind,
+                                                                     init)
         if not brk:
             return self.unpack(names, src, ind)
         out = '%slet st__ := %s\n' % (ind, src)
@@ -1127,6 +1360,65 @@ class FnShaped(translate.Fn):
             out += '%slet %s := %s.1\n' % (ind, x, path)
             path += '.2'
         return out
+
+    def enumerate_loop(self, s, env, ind):
+        """`for i, x in enumerate(A)` / `for i, tp in enumerate(zip(A, B))` / `for i, (x, y) in enumerate(zip(A, B))` over
+        1-D arrays of declared (equal) length: the `range` loop over the index with the element(s) bound first"""
+        if s.orelse or not (isinstance(s.target, ast.Tuple) and len(s.target.elts) == 2
+                            and isinstance(s.target.elts[0], ast.Name)):
+            self.fail(s, 'unsupported enumerate loop')
+        idx = s.target.elts[0].id
+        what = s.iter.args[0]
+        elem = s.target.elts[1]
+        if isinstance(what, ast.Call) and ast.unparse(what.func) == 'zip' and not what.keywords and len(what.args) >= 2:
+            arrs = list(what.args)
+        else:
+            arrs = [what]
+        lens = []
+        for a in arrs:
+            v = self.aval(a, env)
+            if not (isinstance(v, AV) and v.ndim == 1 and v.dtype == 'f') or v.shape[0] in (None, BC):
+                self.fail(s, 'enumerate over something else than 1-D arrays of declared length')
+            lens.append(v.shape[0])
+        n = lens[0]
+        for m in lens[1:]:
+            self.need_equal(n, m, s)                     # (zip would stop at the shorter one)
+        pre = ''
+        if re.fullmatch(r'[A-Za-z_]\w*', n) and lname(n) == n:
+            nvar = n
+            added = nvar not in env
+        else:
+            nvar = self.fresh_name('n')
+            pre = '%slet %s := %s\n' % (ind, nvar, n)
+            added = True
+        env3 = dict(env)
+        env3[nvar] = 'nat'
+        sub = lambda a: ast.Subscript(value=a, slice=ast.Name(id=idx, ctx=ast.Load()), ctx=ast.Load())
+        binds = []
+        if len(arrs) == 1:
+            if not isinstance(elem, ast.Name):
+                self.fail(s, 'unsupported enumerate target')
+            binds.append(ast.Assign(targets=[ast.Name(id=elem.id, ctx=ast.Store())], value=sub(arrs[0])))
+        elif isinstance(elem, ast.Tuple):
+            if len(elem.elts) != len(arrs) or not all(isinstance(t, ast.Name) for t in elem.elts):
+                self.fail(s, 'unsupported enumerate target')
+            for t, a in zip(elem.elts, arrs):
+                binds.append(ast.Assign(targets=[ast.Name(id=t.id, ctx=ast.Store())], value=sub(a)))
+        elif isinstance(elem, ast.Name):
+            env3[elem.id] = ('zip', arrs, idx)
+        else:
+            self.fail(s, 'unsupported enumerate target')
+        loop = ast.For(target=ast.Name(id=idx, ctx=ast.Store()),
+                       iter=ast.Call(func=ast.Name(id='range', ctx=ast.Load()),
+                                     args=[ast.Name(id=nvar, ctx=ast.Load())], keywords=[]),
+                       body=[ast.copy_location(b, s) for b in binds] + list(s.body), orelse=[])
+        ast.copy_location(loop, s)
+        ast.fix_missing_locations(loop)
+        txt = pre + self.loop(loop, env3, ind)
+        for k2, v2 in env3.items():                     # kinds of the carried variables may have been refined
+            if k2 in env:
+                env[k2] = v2
+        return txt
 
     # ------------------------------------------------------------------ generators
     def np_yield(self, s, env, ind, rest, inline):
@@ -1155,12 +1447,17 @@ class FnShaped(translate.Fn):
             return 'List (Nat → Nat → α)'
         if kind == 'barr':
             return 'Nat → Bool'
+        if kind == 'optarr2':
+            return 'Option (Nat → Nat → α)'
         return super().lean_ty(kind)
 
     def result_type_ext(self, ret, rty):
         rty = super().result_type_ext(ret, rty)
         rk = self.spec.get('returns', 's')
-        self.known_extra = dict(getattr(self, 'known_extra', {}) or {}, returns=rk, out=self.out_var, shaped=True)
+        # (Fn.translate appends one Nat parameter per `lens` entry that is not a parameter itself, in this order)
+        len_params = [(arr, n) for arr, n in self.lens.items() if n not in self.arg_names]
+        self.known_extra = dict(getattr(self, 'known_extra', {}) or {}, returns=rk, out=self.out_var, shaped=True,
+                                len_params=len_params)
         if isinstance(rk, list):
             return ' × '.join('(' + self.lean_ty(k) + ')' for k in rk)
         return rty
@@ -1192,11 +1489,17 @@ class FnShaped(translate.Fn):
                     or (isinstance(s, ast.Expr) and isinstance(s.value, ast.Yield) and self.spec.get('yields') == 'single')
                 if terminal:
                     return out + super().block(stmts[i:], env, ind, tail, inline)
-                if isinstance(s, ast.If):
-                    c = self.cond(s.test, env)
-                    self._branch_ctx[id(s.body)] = '%s = true →\n' % c
-                    if s.orelse:
-                        self._branch_ctx[id(s.orelse)] = '%s = false →\n' % c
+                if isinstance(s, ast.If) and self.static_value(s.test) is None \
+                        and not any(isinstance(o, (ast.Is, ast.IsNot)) for n in ast.walk(s.test)
+                                    if isinstance(n, ast.Compare) for o in n.ops):
+                    try:
+                        c = self.cond(s.test, env)
+                    except Untranslatable:
+                        c = None                          # (reported by the translation of the statement itself)
+                    if c is not None:
+                        self._branch_ctx[id(s.body)] = '%s = true →\n' % c
+                        if s.orelse:
+                            self._branch_ctx[id(s.orelse)] = '%s = false →\n' % c
                 t = super().block([s], env, ind, None, inline=True)
                 out += t
                 if t:
